@@ -76,9 +76,11 @@ var c14Client, c14ClientNoKA *http.Client
 
 // one request of a case: what the handler does on it, what the callbacks reported while it was served
 type c14Step struct {
-	obs c14Obs
-	ops []any
-	bar *c14Barrier
+	obs  c14Obs
+	ops  []any
+	bar  *c14Barrier
+	done chan struct{} // real server: closed when the middleware chain has returned (or panicked) for this request
+	once sync.Once
 }
 
 type c14StepKey struct{}
@@ -126,6 +128,10 @@ func c14Server() {
 				http.Error(w, "no such step", 599)
 				return
 			}
+			// the client may be done with the exchange before the chain returns (it gives up after too many
+			// informational responses, or sees the connection die on a panic): the observations of the
+			// callbacks are read only after this
+			defer ent.steps[i].once.Do(func() { close(ent.steps[i].done) })
 			ent.h.ServeHTTP(w, r.WithContext(context.WithValue(r.Context(), c14StepKey{}, ent.steps[i])))
 		}))
 		c14Srv.Config.ErrorLog = log.New(io.Discard, "", 0)
@@ -825,6 +831,11 @@ func c14ServeStep(c hx.Case, sc hx.Case, h http.Handler, st *c14Step, id string,
 		}
 		res["panicked"] = aborted
 		res["kind"] = "server"
+		select {
+		case <-st.done:
+		case <-time.After(3 * time.Second):
+			res["server_side_unfinished"] = true
+		}
 	} else {
 		rec := httptest.NewRecorder()
 		req := c14Request(sc, "http://example.com")
@@ -879,7 +890,7 @@ func runC14(c hx.Case) any {
 		bar = &c14Barrier{n: int32(n)}
 	}
 	for i, sc := range scs {
-		steps[i] = &c14Step{ops: jlist(sc["ops"]), bar: bar}
+		steps[i] = &c14Step{ops: jlist(sc["ops"]), bar: bar, done: make(chan struct{})}
 	}
 	id := ""
 	if jstr(c, "transport") == "server" {
